@@ -84,6 +84,9 @@ class Ctx:
                     continue
                 if f in db:
                     continue
+                argv = shlex.split(e['command'])
+                if '-c' not in argv or '-o' not in argv:
+                    continue      # custom commands (copies, generators), not compilations
                 db[f] = (e['directory'], self._clean(shlex.split(e['command'])))
             self._compdb = db
         return self._compdb
